@@ -384,9 +384,24 @@ func c04c(c *Ctx) {
 		for _, ci := range infos {
 			ids[ci.id] = true
 		}
+		var checkTerm func(a *ssa.Alloc, typ, field string, mayLeave bool, v string)
 		check := func(a *ssa.Alloc, typ, field string, mayLeave bool) {
 			use := lastUse(a)
-			v := c.fieldAtUse(fn, a, field, use)
+			// a destination chosen among alternatives (`dest := body.id; if cond { dest = entry }`):
+			// every alternative is checked
+			if fv := fieldValue(a, field, use); fv != nil {
+				if _, isPhi := fv.(*ssa.Phi); isPhi {
+					var leaves []ssa.Value
+					phiLeaves(fv, map[ssa.Value]bool{}, &leaves)
+					for _, lf := range leaves {
+						checkTerm(a, typ, field, mayLeave, c.term(fn, lf))
+					}
+					return
+				}
+			}
+			checkTerm(a, typ, field, mayLeave, c.fieldAtUse(fn, a, field, use))
+		}
+		checkTerm = func(a *ssa.Alloc, typ, field string, mayLeave bool, v string) {
 			pos := c.W.Pos(a.Pos())
 			key := fmt.Sprintf("%s/%s.%s[%s]", c.W.FuncKey(fn), typ, field, pretty(v))
 			switch {
